@@ -301,6 +301,11 @@ func (c *Entry) ToPlain(out iface.IPFSLogEntry, provider identityprovider.Interf
 	out.SetPayload([]byte(c.Payload))
 	out.SetIdentity(identity)
 
+	if c.EncryptedLinks != "" || c.EncryptedLinksNonce != "" {
+		out.SetAdditionalDataValue(iface.KeyEncryptedLinks, c.EncryptedLinks)
+		out.SetAdditionalDataValue(iface.KeyEncryptedLinksNonce, c.EncryptedLinksNonce)
+	}
+
 	return nil
 }
 
